@@ -496,10 +496,17 @@ fn typed_rules(values: &[J]) -> Vec<String> {
             _ => {}
         }
     }
-    bodies
-        .into_iter()
+    let mut out: Vec<String> = bodies
+        .iter()
         .map(|b| format!("detection:\n  A:\n    {b}\n  condition: A\ntrue_positives: []\ntrue_negatives: []\n"))
-        .collect()
+        .collect();
+    // the same predicates counted by the condition, negated, and case-insensitive under a cast
+    for b in ["str(k): 'i*5*'", "str(k): 'i1*'", "str(k): 'i-*'", "str(k): 'iTRUE'", "k: 'i*A*'", "int(k): '>=1'"] {
+        for cond in ["of(A, 1)", "all(A)", "not A", "of(A, 0)", "not of(A, 1)"] {
+            out.push(format!("detection:\n  A:\n    {b}\n  condition: {cond}\ntrue_positives: []\ntrue_negatives: []\n"));
+        }
+    }
+    out
 }
 
 pub fn run(tier: &str, seed: u64) -> i32 {
